@@ -283,7 +283,8 @@ func runC08(r *Run, rng *rand.Rand, thorough bool) {
 		nNodes := len(pr.build(rng).Nodes)
 		sts := strategies(nNodes, rng)
 		for mode := 0; mode < 3; mode++ { // 0: flipped copy before, 1: instead (genuine later), 2: after
-			if !thorough && strings.HasPrefix(pr.name, "ecdsa") && mode != (pi+int(r.Seed))%3 {
+			// quick tier, ECDSA: always "flipped copy first", plus one of the other two modes
+			if !thorough && strings.HasPrefix(pr.name, "ecdsa") && mode != 0 && mode != 1+(pi+int(r.Seed))%2 {
 				continue
 			}
 			st := sts[(pi+mode)%len(sts)]
